@@ -1,0 +1,1 @@
+//! Differential-driver access to crate-private items (group: reserve). See /verif/DESIGN.md.
